@@ -17,6 +17,7 @@
 (*   dupkey one response key selected twice, by every pair of fields of    *)
 (*          Query and of A with a selection set that fits (lists of        *)
 (*          different lengths, objects against lists and leaves, nulls)    *)
+(*   hist   a schema and a second load that extends its types (see HistCases)*)
 (*   indef  input object fields whose default includes a value of the      *)
 (*          field's own type                                               *)
 (*   vars   (declared variable type) x (default) x (place of use); the     *)
@@ -125,6 +126,24 @@ InDefCases ==
                  <<"directive", "@", "d", "(", "x", ":", "In", ")", "on", "OBJECT", "type", "Query", "@", "d", "(", "x", ":", "{", "}", ")", "{", "a", ":", "Int", "}">>,
                  <<"type", "Query", "{", "a", "(", "x", ":", "In", "=", "{", "}", ")", ":", "Int", "}">> }}
 
+\* ---------------------------------------------------------------- family hist
+\* a schema, then (after the mark "#cut": a second load on the same root) one or two extensions of its types - fields
+\* whose defaults pull in the type being extended, duplicates, an unknown type - with or without a definition that
+\* makes validation refuse the document; the root is then used (coercers of every type, requests)
+HBase == <<"input", "A", "{", "x", ":", "Int", "}", "input", "B", "{", "a", ":", "A", "=", "{", "}", "}",
+           "type", "Query", "{", "f", "(", "a", ":", "A", ")", ":", "Int", "}">>
+HExt == { <<"extend", "input", "A", "{", "b", ":", "B", "=", "{", "}", "}">>,
+          <<"extend", "input", "A", "{", "y", ":", "Int", "}">>,
+          <<"extend", "input", "B", "{", "c", ":", "B", "=", "{", "}", "}">>,
+          <<"extend", "input", "B", "{", "l", ":", "[", "A", "]", "=", "[", "{", "}", "]", "}">>,
+          <<"extend", "input", "A", "{", "x", ":", "Int", "}">>,
+          <<"extend", "type", "Query", "{", "g", "(", "b", ":", "B", "=", "{", "}", ")", ":", "Int", "}">>,
+          <<"extend", "type", "Query", "{", "f", ":", "Int", "}">>,
+          <<"extend", "input", "Nope", "{", "z", ":", "Int", "}">> }
+HistCases ==
+  {[fam |-> "hist", ph |-> "case", lang |-> "sdl", sep |-> "sp", nm |-> 0, form |-> HBase \o <<"#cut">> \o x1 \o x2 \o tail] :
+      x1 \in HExt, x2 \in HExt \cup {<<>>}, tail \in { <<>>, <<"type", "Z", "{", "__z", ":", "Int", "}">> }}
+
 \* ---------------------------------------------------------------- family dupkey
 QFields == { <<"title">>, <<"bad">>, <<"grid">>, <<"a", "{", "n", "}">>, <<"nul", "{", "n", "}">>, <<"items", "{", "n", "}">>,
              <<"items", "{", "kids", "{", "n", "}", "}">>, <<"named", "{", "name", "}">>, <<"any", "{", "__typename", "}">>,
@@ -149,6 +168,7 @@ PickLang == /\ cs.ph = "fam"
                \/ cs.fam = "frag3" /\ cs' \in {[fam |-> "frag3", ph |-> "case", lang |-> "exe", form |-> RenderDoc(d), doc |-> d, sep |-> "sp", nm |-> 0] : d \in Docs3}
                \/ cs.fam = "dupkey" /\ cs' \in DupCases
                \/ cs.fam = "indef" /\ cs' \in InDefCases
+               \/ cs.fam = "hist" /\ cs' \in HistCases
                \/ cs.fam = "vars" /\ cs' \in VarCases
                \/ cs.fam = "refl" /\ cs' \in ReflCases
                \/ cs.fam = "undecl" /\ cs' \in UndeclCases
